@@ -72,6 +72,25 @@ TAILS = ["none", "binary", "high", "utf8", "utf8-cut", "nul", "pvl-like",
          "pvl-like-broken", "late-binary", "long-run", "long-run-utf8"]
 
 
+def advance(f, header, how):
+    """What a caller did before handing the stream over: consumed the
+    one-line header by read(n), readline() or next() (iterating lines)."""
+    if not header:
+        return
+    if how == "next":
+        next(f)
+        return
+    if how == "readline":
+        f.readline()
+        return
+    left = len(header)
+    while left > 0:         # a raw read may return fewer bytes
+        got = f.read(left)
+        if not got:
+            break
+        left -= len(got)
+
+
 def describe(o):
     if o.kind == "ok":
         return ("ok", core.canon(o.value))
@@ -130,7 +149,8 @@ class C09(Property):
         "probe.real-file-object",
         "probe.pre-advanced-text-with-late-binary",
         "probe.byte-order-mark", "probe.encoding-argument",
-        "probe.pvl-new-entry-points"]
+        "probe.pvl-new-entry-points", "probe.pre-advanced-by-next",
+        "probe.pre-advanced-by-readline"]
 
     # ---- one load through one entry point
     def load_entry(self, case, entry, knobs, st):
@@ -170,12 +190,7 @@ class C09(Property):
             else:
                 f = open(p, "rb", buffering=knobs.get("buffer", -1) or 0)
             try:
-                left = len(header)
-                while left > 0:
-                    got = f.read(left)
-                    if not got:
-                        break
-                    left -= len(got)
+                advance(f, header, knobs.get("advance"))
                 return core.guarded(lambda: P.load(f, **kw), nchars), None
             finally:
                 f.close()
@@ -190,17 +205,11 @@ class C09(Property):
                 f, raw = iosim.text_reader(
                     full, knobs.get("buffer", 8192), knobs.get("chunk"),
                     knobs.get("newline"), **raw_kw)
-                if header:
-                    f.read(len(header))
+                advance(f, header, knobs.get("advance"))
             else:
                 f, raw = iosim.binary_reader(
                     full, knobs.get("buffer", 8192), **raw_kw)
-                left = len(header)
-                while left > 0:     # a raw read may return fewer bytes
-                    got = f.read(left)
-                    if not got:
-                        break
-                    left -= len(got)
+                advance(f, header, knobs.get("advance"))
             return core.guarded(lambda: P.load(f, **kw), nchars), raw
         if entry == "str":
             s = label + data[len(label.encode()):].decode("latin-1")
@@ -229,7 +238,9 @@ class C09(Property):
                 raw_sig="%s|%s|%s%s%s%s" % (
                     cls, entry, "/".join(str(x) for x in got[:2])
                     if got[0] != "ok" else "ok",
-                    "|non-seekable" if knobs.get("pipe") else "", "", und)))
+                    "|non-seekable" if knobs.get("pipe") else "",
+                    "|advanced-by-next()" if knobs.get("advance") == "next"
+                    and not knobs.get("pipe") else "", und)))
 
         injected = knobs.get("fail_at") is not None
         if injected and got == ("exc", "OSError"):
@@ -460,6 +471,10 @@ class C09(Property):
                                             first_bad > 8192 + 64):
                     case_h = dict(case, header="HDR %d bytes\n" %
                                   rng.randrange(10 ** 6))
+                    how = rng.choice(["read", "read", "readline", "next"])
+                    if how != "read":
+                        knobs["advance"] = how
+                        out.inc("probe.pre-advanced-by-" + how)
                     out.inc("probe.pre-advanced")
                     if first_bad is not None and entry == "text-stream":
                         out.inc("probe.pre-advanced-text-with-late-binary")
@@ -498,6 +513,10 @@ class C09(Property):
                 if rng.random() < 0.2 and can_pre:
                     case_h = dict(case, header="HDR %d bytes\n" %
                                   rng.randrange(10 ** 6))
+                    how = rng.choice(["read", "read", "readline", "next"])
+                    if how != "read":
+                        knobs["advance"] = how
+                        out.inc("probe.pre-advanced-by-" + how)
                     out.inc("probe.pre-advanced")
                     out.inc("fault.pre-advanced-position")
                     if first_bad is not None and entry == "text-stream":
@@ -601,6 +620,8 @@ class C09(Property):
                 chan.make_lexer_fn([], st0)))
             if ref[0] != "ok" or (tail and not st0.end_seen):
                 continue        # the premise (an END statement) must stay
+            if tail and nl[-1:] not in ("\n", " ", "\t", ";", "\0"):
+                continue        # ... and so must the separator after it
             yield dict(case, label=nl, data_hex=(nl.encode() + tail).hex(),
                        ref=core.listify(ref))
 
